@@ -9,12 +9,13 @@ mod verif_kani_lower {
     //@include lower_ref.rs
 
     #[kani::proof]
-    #[kani::unwind(12)]
+    #[kani::unwind(20)]
     fn lower_kernel_fast() {
         let bytes: [u8; 16] = kani::any();
+        // one refill (no request loop): a slice source hands over all 16 bytes in one read
         let mut reader = DeferredReader::from_read(&bytes[..]);
         reader.set_chunk_size(16);
-        reader.request(16);
+        reader.request_more();
         assert!(reader.buf_len() == 16);
         let got = ascii_lowercase_u64(&mut reader, 0);
         let mut b8 = [0u8; 8];
